@@ -126,7 +126,7 @@ def call_change(change, node, ctx):
 
 
 # ---------------------------------------------------------------- harness shapes
-def status_harness(name, prop, cmd, var, change, want, desc, tiers=("quick", "thorough"), timeout=1500, stub="branch",
+def status_harness(name, prop, cmd, var, change, want, desc, tiers=("quick", "thorough"), timeout=1500, stub="assume",
                    also_not_ok=False):
     """decode the changed message through Request::deserialize and assert the status.
     `change(root_node) -> node`; want: expected status byte (0 = must decode, None = any of the
